@@ -5,6 +5,9 @@ use crate::server::AppState;
 use std::net::SocketAddr;
 use std::sync::Arc;
 use tokio::io::{AsyncBufReadExt, AsyncWriteExt, BufReader};
+#[cfg(feature = "verif-hooks")]
+use crate::verif_hooks::{TcpListener, TcpStream};
+#[cfg(not(feature = "verif-hooks"))]
 use tokio::net::{TcpListener, TcpStream};
 use tokio::time::{Duration, timeout};
 
